@@ -253,6 +253,21 @@ CHECKS["C18"] = dict(
     technique="TLA+ spec (BmciProps over exact rationals) checked with TLC; TLC-generated databases replayed into "
               "typhon.retrieval.bmci.BMCI in regimes with exactly representable weights")
 
+CHECKS["C20"] = dict(
+    text="SrtmProps.tla states in integer units of half a cell which rows/columns form the block that covers a rectangle and "
+         "overshoots it by less than one cell, which tiles intersect it with positive area, and which pixel of which tile "
+         "belongs to every cell; TLC checks the covering law and enumerates rectangles with corners around a four-tile "
+         "corner, tile edges, the pole row and +-180 degrees (aligned corners at multiples of 1/8 degree, unaligned ones in "
+         "mid-cell); SRTM30.elevation / get_tiles are run with synthetic tiles whose pixel encodes global row, column and "
+         "tile index and EVERY returned cell is compared; get_native_grids(bounds(t)) = get_grids(t) for all 27 tiles; tile "
+         "cache histories (warm/cold) from TileCache.tla are replayed on the real get_tile with a counting download stub.",
+    ref="DESIGN.md §5 C20",
+    note="Trusted: TLC, SrtmProps (~60 lines), the synthetic pixel formula (also evaluated by TLC for the corner cells). "
+         "Aligned corners are restricted to values exactly representable in binary; decimal-aligned corners are undecidable "
+         "to 1e-15 and are not used. MosaicDesign (mask loop on a scaled world) of DESIGN.md is not written.",
+    technique="TLA+ spec (SrtmProps, TileCache) checked with TLC; TLC-generated rectangles and cache histories replayed into "
+              "typhon.topography.SRTM30 with synthetic tiles")
+
 NOT_APPLICABLE = {
     "C07": "Every clause concerns floating-point accuracy of sin/cos/arctan2/sqrt compositions or convergence of a "
            "fixed-point iteration over a continuous domain; TLA+/TLC has no reals or transcendental functions and there "
